@@ -2,9 +2,9 @@
 spec/TxExec.tla (model in the code's shape) + spec/TxExecMon.tla (monitor) + spec/TraceTxExec.tla; driver harness/cmd/vd-txexec.
   1. P-MC + generation in one TLC run per family: TLC enumerates every block of the family (flat blocks of 2-3
      transactions; blocks with nested calls whose failure is propagated or caught; a failure injected at every
-     position), executes the model, checks PropC15 / OverlayClean on the model (PropC15ExceptCaught where the
-     model carries the code's bookkeeping of caught callee failures) and prints one ROW per block with the
-     predicted observation and the monitor's verdict on it.
+     position), executes the model, checks PropC15 / OverlayClean on the model and prints one ROW per block with
+     the predicted observation and the monitor's verdict on it.  (TxExec_nest_old: the bookkeeping NativeService.Invoke
+     had before its repair must violate PropC15 in the model - the documented counterexample.)
   2. P-REPLAY: every ROW is executed by the real LedgerStoreImp.ExecuteBlock on a real on-disk ledger holding the
      row's prior state (probe contract); write set, cross hashes, per-transaction state and notifications and the
      values read are compared with the prediction.  Equal observation => the monitor's verdict computed by TLC
@@ -69,6 +69,11 @@ def run(ctx):
     if ctx.replay:
         return replay_one(ctx, b, env)
     tmo = 900 if q else 3000
+    # the documented counterexample: with the bookkeeping Invoke had before its repair (RestoreOnError = FALSE) the model
+    # must violate PropC15 - otherwise the monitor would not see a lost notification / record at all
+    r0 = ctx.tlc("TxExec", "TxExec_nest_old.cfg", timeout=tmo)
+    if r0.invariant_violated != "PropC15":
+        ctx.fail("PropC15 is not violated by the pre-repair Invoke bookkeeping in the model (monitor vacuous?) rc=%d\n%s" % (r0.rc, r0.out[-1500:]))
     rows_total = matched = mismatched = distinct = 0
     pending = []          # (source, driver record) whose observation still needs the monitor's verdict
     sample_expect = []    # (driver record, model verdict) for the consistency cross-check
